@@ -6,6 +6,7 @@ others ignored), print(...) and warnings.warn(...) calls (no-ops).  Anything els
 raises Unsupported -> the unit is undecided.
 """
 import ast
+import os
 import hashlib
 import z3
 
@@ -589,7 +590,28 @@ class Engine(ExprMixin):
         )
         for i, n in enumerate(loops):
             self._ord_cache[id(n)] = i
+        # contracts address loops by ordinal: if the function now has a different NUMBER of loops than when the contract was
+        # written, the ordinals no longer mean the same loops - the contract does not apply (undecided), it is not evaluated
+        self._check_loop_count(fn.name, len(loops))
         return loops
+
+    _loop_counts = None
+
+    def _check_loop_count(self, name, n):
+        import json
+        path = os.path.join(os.path.dirname(os.path.dirname(os.path.abspath(__file__))), "contracts", "loop_counts.json")
+        if Engine._loop_counts is None:
+            Engine._loop_counts = json.load(open(path)) if os.path.exists(path) else {}
+        if os.environ.get("PYVC_RECORD_LOOPS"):
+            if Engine._loop_counts.get(name) != n:
+                cur = json.load(open(path)) if os.path.exists(path) else {}
+                cur[name] = n
+                json.dump(cur, open(path, "w"), indent=1, sort_keys=True)
+                Engine._loop_counts = cur
+            return
+        want = Engine._loop_counts.get(name)
+        if want is not None and want != n:
+            raise Unsupported(f"loop structure of {name} changed ({n} loops, the contract addresses {want} by ordinal)")
 
     def s_For(self, s, env, cls):
         it = self.eval(s.iter, env, cls)
